@@ -164,7 +164,7 @@ func runProperty(eng *Engine, o *Options, start time.Time) int {
 				// obligations written for that property
 				continue
 			}
-			if sweepKeys[k] && baseline != nil && o.Tier != "thorough" && !ob.Cover && !baseline[res.Key+"/"+ob.Name] {
+			if sweepKeys[k] && ob.Implicit && baseline != nil && o.Tier != "thorough" && !ob.Cover && !baseline[res.Key+"/"+ob.Name] {
 				// quick sweep: implicit obligations of contract-less functions that were not
 				// provable when the baseline was recorded are not claimed and not re-solved
 				skippedUnclaimed++
